@@ -53,6 +53,8 @@ def check(case):
                 P[0::2, 0], P[0::2, 1] = Re[:, j], Ze[:, j]
                 P[1::2, 0], P[1::2, 1] = Ro[:, j], Zo[:, j]
                 pinned = gridcheck.xpoint_mask(P[:, 0], P[:, 1], xpts)
+                # points outside the rectangle of the psi array have no reference psi
+                pinned = pinned | ~cref.in_data_domain(P[:, 0], P[:, 1], margin=1e-3)
                 g = numpy.hypot(ref.dR(P[:, 0], P[:, 1]), ref.dZ(P[:, 0], P[:, 1]))
                 for k in range(2 * nx):
                     if pinned[k] or pinned[k + 1]:
